@@ -1220,7 +1220,10 @@ def num_getattr(ev, obj: Num, name, fr, node):
         if obj.unit is not None:
             return Num(obj.expr / obj.unit, kind="array" if obj.shape else "number", shape=obj.shape, axes=obj.axes, isfloat=True)
         usym = sp.Symbol("unitof_" + "".join(c if c.isalnum() else "_" for c in str(obj.expr))[:40], positive=True)
-        return Num(obj.expr / usym, kind="array" if obj.shape else "number", shape=obj.shape, axes=obj.axes)
+        d_ = dim_of(obj.expr) if obj.kind == "quantity" else None
+        base = sp.Mul(*[k_ ** v_ for k_, v_ in d_.items()]) if d_ else sp.Integer(1)
+        # the bare number in front of the unit the caller happens to use: the physical value divided by that (unknown-scale) unit
+        return Num(obj.expr / (usym * base), kind="array" if obj.shape else "number", shape=obj.shape, axes=obj.axes)
     if name == "unit":
         if obj.unit is not None:
             return Num(obj.unit, kind="quantity", unit=obj.unit, tag="unit")
@@ -1694,6 +1697,20 @@ def nd_method(ev, x: NdArr, name, args, kwargs, fr, node):
     if name == "astype":
         out = NdArr(x.shape, list(x.items))
         out.dtype = args[0] if args else kwargs.get("dtype")
+        if isinstance(out.dtype, ExtV) and out.dtype.dotted in ("builtins.bool", "numpy.bool_", "numpy.bool"):
+            # a cast to bool maps every element to its truth value (1 -> True, 0 -> False): the result is a mask, not an index list
+            conv = []
+            for e in x.items:
+                if isinstance(e, BoolV):
+                    conv.append(e)
+                elif isinstance(e, Num) and e.expr.is_number:
+                    conv.append(BoolV(bool(e.expr != 0)))
+                else:
+                    conv = None
+                    break
+            if conv is not None:
+                out = NdArr(x.shape, conv)
+                out.dtype = ExtV("numpy.bool_")
         return out
     if name in ("to", "to_value"):
         return x.map(lambda e: num_method(ev, e, name, args, kwargs, fr, node))
@@ -2498,6 +2515,10 @@ def _isinst(ev, v, c, fr, node):
                 return v.backend == "dask"
             return False
         if d == "numpy.ndarray":
+            if isinstance(v, ObjV):
+                # instances of the package's Quantity/Angle/ndarray subclasses (Phase) are ndarrays
+                bases = [b for c_ in v.cls.mro() for b in getattr(c_, "ext_bases", [])]
+                return any(b.split(".")[-1] in ("Quantity", "SpecificTypeQuantity", "Angle", "Longitude", "Latitude", "ndarray") for b in bases)
             if isinstance(v, Num) and v.backend == "dask":
                 return False          # a Dask array is not an ndarray
             return isinstance(v, (Num, NdArr)) and getattr(v, "kind", None) == "array"
@@ -2509,6 +2530,9 @@ def h_getattr(ev, args, kwargs, fr, node):
     if not isinstance(name, StrV):
         ev.unsupported("getattr with non-literal name", node, fr)
     from .symeval import Raised
+    if isinstance(obj, Num) and obj.kind == "number" and not obj.shape and obj.dtype is None and obj.tag is None \
+            and name.s in ("unit", "value", "to", "to_value", "shape", "dtype", "ndim", "data") and len(args) > 2:
+        return args[2]        # a plain Python number has none of the Quantity / array attributes: getattr(x, "unit", d) is d
     try:
         return ev.getattr(obj, name.s, fr, node)
     except Raised:
@@ -2682,6 +2706,28 @@ def h_rfftfreq(ev, args, kwargs, fr, node, backend=None):
     m = sp.floor(n / 2) + 1
     ev.index_len[kb] = m
     return Num(kb / (n * d.expr), kind="quantity" if d.kind == "quantity" else "array", shape=(m,), axes=(kb,), backend=backend)
+
+
+def h_may_share(ev, args, kwargs, fr, node):
+    """np.may_share_memory(a, b) on the evaluator's buffer identities: model objects carry `_buf` (views keep their base's), plain
+    arrays share when one is (a view of) the other."""
+    a, b = args[0], args[1]
+
+    def buf(x):
+        if isinstance(x, ObjV) and isinstance(x.attrs.get("_buf"), StrV):
+            return ("buf", x.attrs["_buf"].s)
+        if isinstance(x, Num):
+            root, hops = x, 0
+            while getattr(root, "base", None) is not None and hops < 20:
+                root, hops = root.base, hops + 1
+            return ("num", id(root))
+        return None
+    ba, bb = buf(a), buf(b)
+    if ba is None or bb is None:
+        if isinstance(a, (NoneV, StrV, BoolV)) or isinstance(b, (NoneV, StrV, BoolV)):
+            return BoolV(False)
+        ev.unsupported(f"np.may_share_memory({a!r}, {b!r})", node, fr)
+    return BoolV(ba == bb)
 
 
 def h_zeros_like(ev, args, kwargs, fr, node, fill=0):
@@ -2968,6 +3014,8 @@ def _h_array(ev, args, kwargs, fr, node, strip=False):
         v = num_getattr(ev, x, "value", fr, node)
         x = Num(v.expr, kind="array", shape=v.shape if v.shape is not None else (), axes=v.axes, backend=x.backend, tag=x.tag, dtype=x.dtype, isfloat=True)
     if isinstance(x, Num) and not isinstance(dt, NoneV) and x.kind in ("array",):
+        if isinstance(dt, ExtV) and isinstance(x.dtype, ExtV) and _dtype_name(dt) is not None and _dtype_name(dt) == _dtype_name(x.dtype):
+            return x          # the dtype asked for is the one the array has: no conversion, hence (unless copy=True) no new array
         return x.like(x.expr, dtype=dt)
     if isinstance(x, (Num, NdArr)):
         if isinstance(x, Num) and x.kind in ("number",):
@@ -3030,7 +3078,10 @@ def h_concatenate(ev, args, kwargs, fr, node):
         shape = list(items[0].shape)
         shape[ax] = sum((i.shape[ax] for i in items[1:]), items[0].shape[ax])
     exprs = [i.expr if isinstance(i, Num) else sp.Symbol("stack") for i in items]
-    return Num(F["Concat"](F["Tup"](*exprs), axis.expr if isinstance(axis, Num) else NONE_S), kind="array", shape=shape,
+    ax_term = axis.expr if isinstance(axis, Num) else NONE_S
+    if ax is not None and ax < 0 and shape is not None:
+        ax_term = sp.Integer(ax % len(shape))          # a negative axis names the same axis as its non-negative spelling
+    return Num(F["Concat"](F["Tup"](*exprs), ax_term), kind="array", shape=shape,
                backend=getattr(items[0], "backend", None), tag="data", dtype=getattr(items[0], "dtype", None))
 
 
@@ -3934,6 +3985,7 @@ EXT = {
     "numpy.fft.fftfreq": h_fftfreq, "numpy.fft.rfftfreq": h_rfftfreq,
     "dask.array.fft.rfftfreq": lambda ev, a, k, fr, n: h_rfftfreq(ev, a, k, fr, n, backend="dask"),
     "dask.array.fft.fftfreq": lambda ev, a, k, fr, n: h_fftfreq(ev, a, k, fr, n, backend="dask"),
+    "numpy.may_share_memory": lambda ev, a, k, fr, n: h_may_share(ev, a, k, fr, n), "numpy.shares_memory": lambda ev, a, k, fr, n: h_may_share(ev, a, k, fr, n),
     "numpy.zeros_like": lambda ev, a, k, fr, n: h_zeros_like(ev, a, k, fr, n, 0), "numpy.ones_like": lambda ev, a, k, fr, n: h_zeros_like(ev, a, k, fr, n, 1),
     "numpy.empty_like": lambda ev, a, k, fr, n: h_zeros_like(ev, a, k, fr, n, 0),
     "numpy.zeros": h_zeros, "numpy.ones": lambda ev, a, k, fr, n: h_zeros(ev, a, k, fr, n, fill=1),
